@@ -181,6 +181,7 @@ func (c *Ctx) Failures() []*Ob {
 // ------------------------------------------------------------------ evidence
 
 type Meta struct {
+	Technique   string // a few words naming the deciding method (MANIFEST technique)
 	Explanation string
 	NotDecided  string
 	Assumptions []string
